@@ -55,7 +55,7 @@ Lemma FileHeader_ImmediateDestination_stable r : fitsb L_FileHeader r = true ->
   (is_nil (gets r "ImmediateDestination")
    || (wf_utf8 (gets r "ImmediateDestination")
        && ends_ok (stringField (trim (gets r "ImmediateDestination")) 9))) = true ->
-  seg_stableb L_FileHeader r (SCustom "FileHeader.ImmediateDestinationField" "70ceeab6f5f3") = true.
+  seg_stableb L_FileHeader r (SCustom "FileHeader.ImmediateDestinationField" "f332511f84a1") = true.
 Proof.
   intros Hfit Hc.
   apply (idest_stable L_FileHeader r _
@@ -67,7 +67,7 @@ Lemma FileHeader_ImmediateOrigin_stable r : fitsb L_FileHeader r = true ->
   (is_nil (gets r "ImmediateOrigin")
    || (wf_utf8 (gets r "ImmediateOrigin")
        && ends_ok (stringField (trim (gets r "ImmediateOrigin")) 9))) = true ->
-  seg_stableb L_FileHeader r (SCustom "FileHeader.ImmediateOriginField" "1f0804bcbda7") = true.
+  seg_stableb L_FileHeader r (SCustom "FileHeader.ImmediateOriginField" "1da7f3123d8e") = true.
 Proof.
   intros Hfit Hc.
   apply (iorig_stable L_FileHeader r _
@@ -219,8 +219,8 @@ Proof.
   change (l_segs L_FileHeader) with
     [ SLit [49]%N
     ; SRaw "priorityCode"
-    ; SCustom "FileHeader.ImmediateDestinationField" "70ceeab6f5f3"
-    ; SCustom "FileHeader.ImmediateOriginField" "1f0804bcbda7"
+    ; SCustom "FileHeader.ImmediateDestinationField" "f332511f84a1"
+    ; SCustom "FileHeader.ImmediateOriginField" "1da7f3123d8e"
     ; SCustom "FileHeader.FileCreationDateField" "15c475cdacb0"
     ; SCustom "FileHeader.FileCreationTimeField" "96fc73e249a4"
     ; SRaw "FileIDModifier"
